@@ -3,7 +3,7 @@
 # demo fails with the patch, suite passes with the patch, demo passes without the patch.
 import json, os, re, subprocess, sys, glob, shutil
 pid, m = sys.argv[1], sys.argv[2]
-wt, sd = f"/tmp/wt/{pid}", f"/tmp/seed/{pid}/{m}"
+wt, sd = os.environ.get("WTPREFIX", "/tmp/wt/") + pid, os.environ.get("SEEDROOT", "/tmp/seed") + f"/{pid}/{m}"
 env = dict(os.environ, GOFLAGS="-mod=mod", GOPROXY="off")
 def sh(cmd, cwd=wt, timeout=1500):
     p = subprocess.run(cmd, shell=True, cwd=cwd, env=env, capture_output=True, text=True, timeout=timeout)
